@@ -150,7 +150,7 @@ class HostKeyTest:
                         # Parse the server's KEX.
                         _, payload = s.read_packet()
                         SSH2_Kex.parse(out, payload)
-                    except Exception:
+                    except (Exception, SystemExit):  # read_packet() terminates on framing errors; during a probe that must only end the probe, not the audit.
                         msg = "Failed to parse server's kex."
                         if not out.debug:
                             msg += "  Re-run in debug mode to see stack trace."
@@ -166,7 +166,7 @@ class HostKeyTest:
                     kex_group.send_init(s)
                     kex_reply = kex_group.recv_reply(s)
                     raw_hostkey_bytes = kex_reply if kex_reply is not None else b''
-                except Exception:  # Any error while talking to (or parsing the reply of) a misbehaving server only fails this probe, not the whole audit.
+                except (Exception, SystemExit):  # Any error while talking to (or parsing the reply of) a misbehaving server (including read_packet() terminating on a framing error) only fails this probe, not the whole audit.
                     msg = "Failed to parse server's host key."
                     if not out.debug:
                         msg += "  Re-run in debug mode to see stack trace."
